@@ -4,7 +4,9 @@
 (VERIF_REPO), and the verdict is recorded.  A seeded change counts as caught when the check
 exits 1 with a VIOLATION line.  Worktrees are removed at the end.
 
-usage: tools/regress_seeded.py [--workers N] [--tier quick|thorough] [--only PREFIX]
+usage: tools/regress_seeded.py [--workers N] [--tier quick|thorough] [--only PREFIX] [--full [--out NAME]]
+  --full: also run the pinned tests and the demonstration with and without the change, and write
+          seeded/<dir>/<NAME> (default result.json)
 writes seeded/REGRESSION.json
 """
 import json
@@ -17,6 +19,8 @@ from concurrent.futures import ThreadPoolExecutor
 VERIF = os.path.dirname(os.path.dirname(os.path.abspath(__file__)))
 REPO = "/repo"
 SCRATCH = os.environ.get("VF_SCRATCH", "/var/tmp")
+FULL = "--full" in sys.argv  # also run the pinned tests and the demonstration (with / without the change)
+OUTNAME = "result.json"
 
 
 def sh(cmd, timeout=3600, env=None):
@@ -57,6 +61,14 @@ def worker(k, dirs, tier):
                 sh(f"git -C {wt} checkout -- . && git -C {wt} reset -q --hard")
                 out.append(rec)
                 continue
+            if FULL:
+                rc, o = sh(f"{VERIF}/tools/run_pinned_tests.sh {wt}")
+                rec["tests"] = o.strip().splitlines()[-1] if o.strip() else ""
+                rec["tests_ok"] = "missing 0" in o
+                dd = os.path.join(VERIF, "seeded", d)
+                rc, o = sh(f"cd {dd} && TREE={wt} PYTHONPATH={wt}/src /venv/bin/python demo.py", timeout=900)
+                rec["demo_with_patch_rc"] = rc
+                rec["demo_with_patch_tail"] = o.strip()[-300:]
             t = time.time()
             rc, o = sh(f"cd {VERIF} && ./check {prop} --tier {tier}", env={"VERIF_REPO": wt})
             rec.update(rc=rc, wall=round(time.time() - t, 1),
@@ -66,6 +78,11 @@ def worker(k, dirs, tier):
             if rc not in (0, 1):
                 rec["tail"] = o.strip()[-400:]
             sh(f"git -C {wt} reset -q --hard && git -C {wt} clean -fdq")
+            if FULL:
+                dd = os.path.join(VERIF, "seeded", d)
+                rc, o = sh(f"cd {dd} && TREE={wt} PYTHONPATH={wt}/src /venv/bin/python demo.py", timeout=900)
+                rec["demo_clean_rc"] = rc
+                json.dump(rec, open(os.path.join(dd, OUTNAME), "w"), indent=1)
             out.append(rec)
             print(f"[{k}] {d}: rc={rc} caught={rec['caught']} {rec['wall']}s", flush=True)
     finally:
@@ -78,6 +95,8 @@ def main():
     n = int(arg("--workers", "4"))
     tier = arg("--tier", "quick")
     only = arg("--only", "")
+    global OUTNAME
+    OUTNAME = arg("--out", "result.json")
     dirs = sorted(d for d in os.listdir(os.path.join(VERIF, "seeded"))
                   if os.path.exists(os.path.join(VERIF, "seeded", d, "patch.diff")) and d.startswith(only))
     # partition by property so that the same check never runs twice at once (evidence file)
